@@ -227,7 +227,7 @@ class E2E(Harness):
                     elif died_here:
                         break
                 else:
-                    obl.append((f"pkt{i}: length-mismatched packet withheld", mine is None and not died_here))
+                    obl.append((f"pkt{i}: length-mismatched packet withheld", mine is None))
                     spec_y.append({"i": i, "kind": "withheld"})
             elif skind == "unrec":
                 if yield_unrec:
@@ -240,7 +240,7 @@ class E2E(Harness):
                     elif died_here:
                         break
                 else:
-                    obl.append((f"pkt{i}: unrecognized packet skipped", mine is None and not died_here))
+                    obl.append((f"pkt{i}: unrecognized packet skipped", mine is None))
                     spec_y.append({"i": i, "kind": "skipped"})
             elif skind == "overread":
                 # allowed: exception, warning-flagged yield, withheld, reported/skipped as unrecognized; never clean
@@ -493,7 +493,7 @@ def judge(req, got):
                 return "reproduced", f"{head}: {d}"
             k += 1
         elif kind in ("withheld", "skipped"):
-            if mine is not None or died:
+            if mine is not None:      # (an exception at a LATER packet is judged where the spec expects it)
                 return "reproduced", f"{head}: packet {i} should be {kind}; got {mine} (end {got['end']})"
         elif kind == "not-clean":
             if mine is not None:
